@@ -126,11 +126,13 @@ Fixpoint prr_gwalk (fuel : nat) (v : rrv) (dt : list Z) (t : rnode) (L : mrr_lay
       end
   end.
 
+(* the number of record objects below (and including) the root: PathTable.tsize of the walk tree *)
+Definition prr_size (s : rstate) : nat := tsize (mrr_dtree [] (r_root s)).
 Definition graph_of (dt : list Z) (s : rstate) : rgraph :=
-  prr_graph (prr_gwalk (S (rsize (r_root s))) (r_ver s) dt (r_root s) (mrr_layout s) [([], r_root s)]
+  prr_graph (prr_gwalk (prr_size s) (r_ver s) dt (r_root s) (mrr_layout s) [([], r_root s)]
                        (prr_init (mrr_root_extent s) (mrr_root_len s))).
 
-Definition prr_fuel (s : rstate) : nat := S (rsize (r_root s)).
+Definition prr_fuel (s : rstate) : nat := S (prr_size s).
 
 (* no two records of a directory carry the same identifier (the library allows that inside a Rock Ridge directory
    called RR_MOVED; track_child then lists the later one first: the order is NOT what was written), and no identifier
